@@ -77,7 +77,7 @@ def run(tier, seed):
   rep.rule = ('point sets on small integer grids with duplicates, single-coordinate ties and +-inf (n<=9, d<=4) run through '
               'Naive/Fast/Jax Pareto routines, nsga2._pareto_rank and (via the service driver) ListOptimalTrials, and through '
               'the model; non-trivial = at least one dominated and one non-dominated point')
-  rep.trusted = ['Coq 8.16.1 kernel + vm_compute', 'harness/translate/dominance.py (Python-ast translator of the dominance tests of ListOptimalTrials, nsga2._pareto_rank and xla_pareto, fail-closed; numpy / jax reductions and vmap axes are assumed)', 'numpy argsort modelled as stable insertion sort (true for n<16)',
+  rep.trusted = ['harness/translate/besttrials.py (Python-ast translator of GetBestTrials: candidate tests, attributes read / written, fail-closed)', 'Coq 8.16.1 kernel + vm_compute', 'harness/translate/dominance.py (Python-ast translator of the dominance tests of ListOptimalTrials, nsga2._pareto_rank and xla_pareto, fail-closed; numpy / jax reductions and vmap axes are assumed)', 'numpy argsort modelled as stable insertion sort (true for n<16)',
                  'np.linspace cut points are taken from numpy and only required to descend from len(ys) to 0',
                  'harness/props/c11.py generators and printers', 'proto shim / equinox stand-in']
   tbroke = None
@@ -89,6 +89,11 @@ def run(tier, seed):
   from harness import svcrun as _svcrun
   hb_ = _svcrun.regenerate_handler_sources()
   tbroke = ((tbroke or '') + ' ' + (hb_ or '')).strip() or None
+  try:
+    from harness.translate import besttrials
+    C.write_gen('Gen/BestTrialsSrc.v', besttrials.translate(C.REPO))
+  except Exception as e:  # pylint: disable=broad-except
+    tbroke = ((tbroke or '') + ' translator harness/translate/besttrials.py refused local_policy_supporters.py: %r' % (e,)).strip()
   C.standard_proof_step(rep, 'C11')
   broke = ((tbroke or '') + ' ' + (rep.proof_broken or '')).strip() or None
   concrete = False
@@ -285,6 +290,14 @@ def run(tier, seed):
         prob_.metric_information.append(vz_.MetricInformation(name='s%d' % j, goal=g, safety_threshold=1.0))
       sup_ = lps_.InRamPolicySupporter(prob_)
       rows, trials_ = [], []
+      # now and then neighbouring integers above 2^24 (distinct doubles, equal in single precision) or values beyond float32
+      big_ = rb.choice([0, 0, 0, 16777216, 1e39])
+      if big_ == 1e39:
+        big_ = 0
+        scale_ = 1e39
+      else:
+        scale_ = 1.0
+      rep.count('best_trials_values_%s' % ('beyond_float32' if scale_ != 1.0 else 'above_2^24' if big_ else 'small'))
       for ti in range(rb.randrange(1, 8)):
         kind = rb.choice(['ok', 'ok', 'ok', 'ok', 'infeasible', 'active', 'missing', 'nan', 'inf'])
         t_ = vz_.Trial(parameters={'x': 0.5})
@@ -294,7 +307,7 @@ def run(tier, seed):
         elif kind == 'active':
           pass
         else:
-          m = {'o%d' % j: float(rb.randrange(0, 3)) for j in range(nobj)}
+          m = {'o%d' % j: float(big_ + rb.randrange(0, 3)) * scale_ for j in range(nobj)}
           if kind == 'missing':
             m.pop('o%d' % rb.randrange(nobj))
           elif kind == 'nan':
@@ -330,6 +343,41 @@ def run(tier, seed):
                       {'goals': [g.name for g in goals], 'safety_goals': [g.name for g in sgoals],
                        'trials': [(k_, None if t.final_measurement is None else {n: mm.value for n, mm in t.final_measurement.metrics.items()})
                                   for (k_, _v), t in zip(rows, trials_)], 'got': got, 'expected': want})
+      # the same study later: the unfinished trials are completed in place (the number of trials does not change), one of them
+      # possibly replaced by an incoming trial with the same id; the query must follow
+      act_ = [i for i, (k_, _v) in enumerate(rows) if k_ == 'active']
+      if act_ and isinstance(got, list):
+        for i in act_:
+          m = {'o%d' % j: float(big_ + rb.randrange(0, 4)) * scale_ for j in range(nobj)}
+          vec = [(m['o%d' % j] if goals[j] == MAXG else -m['o%d' % j]) for j in range(nobj)]
+          stored = [t for t in sup_.trials if t.id == i + 1][0]
+          how = rb.choice(['in_place', 'in_place', 'replaced', 'infeasible'])
+          if how == 'in_place':
+            stored.complete(vz_.Measurement(m))
+          elif how == 'infeasible':
+            stored.complete(vz_.Measurement(m), infeasibility_reason='bad')
+            vec = None
+          else:
+            t2 = vz_.Trial(id=i + 1, parameters={'x': 0.25})
+            t2.complete(vz_.Measurement(m))
+            try:
+              sup_.AddTrials([t2])
+            except Exception:  # pylint: disable=broad-except
+              stored.complete(vz_.Measurement(m))
+          rows[i] = ('completed_later_' + how, vec)
+        cands = [(i + 1, v) for i, (k_, v) in enumerate(rows) if v is not None]
+        want2 = sorted(i for i, v in cands if not any(dom(w, v) for _, w in cands))
+        try:
+          got2 = sorted(t.id for t in sup_.GetBestTrials())
+        except Exception as e:  # pylint: disable=broad-except
+          got2 = 'raised %s' % type(e).__name__
+        rep.case({'best_trials_rows_after_completions': [(k_, v) for k_, v in rows], 'objectives': nobj}, len(cands) > 1)
+        rep.count('best_trials_query_after_completion')
+        if got2 != want2:
+          concrete = True
+          rep.violation('InRamPolicySupporter.GetBestTrials() after unfinished trials were completed differs from the non-dominated '
+                        'completed trials', {'goals': [g.name for g in goals], 'rows': [(k_, v) for k_, v in rows],
+                                             'first_answer': got, 'got': got2, 'expected': want2})
   except ImportError:
     pass
 
